@@ -1,2 +1,2 @@
-# KN2 (apply to <doc/>)
+# KN2 repaired by a fix: commit - regression case, must pass (apply to <doc/>)
 <xsl:stylesheet version="1.0" xmlns:xsl="http://www.w3.org/1999/XSL/Transform"><xsl:template match="/"><e>t<xsl:attribute name="a" namespace="u4">u4</xsl:attribute><f></f></e></xsl:template></xsl:stylesheet>
